@@ -68,17 +68,90 @@ class Quiet:
         return False
 
 
-def reset_generator_globals():
-    """Process-global caches of the generator that would otherwise carry history between cases.
-    (C09 enumerates that history on purpose and does not call this.)"""
-    try:
-        from pyopenapi_gen.helpers.type_helper import TypeHelper
+_BASELINE = {"taken": False, "slots": [], "caches": []}
 
-        c = getattr(TypeHelper, "_circular_refs_cache", None)
-        if isinstance(c, dict):
-            c.clear()
-    except Exception:
-        pass
+
+def _take_baseline():
+    """Record every mutable container that lives at module or class level inside pyopenapi_gen (after import, before any use), and every
+    functools cache.  These are the places where a generator can carry state from one generation to the next inside a process."""
+    import copy
+    import functools
+    import sys
+    import types
+
+    slots, caches = [], []
+    seen = set()
+    for name, mod in list(sys.modules.items()):
+        if not (name == "pyopenapi_gen" or name.startswith("pyopenapi_gen.")) or mod is None:
+            continue
+        holders = [mod]
+        for v in list(vars(mod).values()):
+            if isinstance(v, type) and getattr(v, "__module__", "").startswith("pyopenapi_gen"):
+                holders.append(v)
+        for h in holders:
+            if id(h) in seen:
+                continue
+            seen.add(id(h))
+            for attr, val in list(vars(h).items()):
+                if attr.startswith("__") and attr.endswith("__"):
+                    continue
+                if isinstance(val, (dict, list, set)) and not isinstance(val, types.MappingProxyType):
+                    try:
+                        slots.append((h, attr, val, copy.deepcopy(val)))
+                    except Exception:
+                        pass
+                elif hasattr(val, "cache_clear") and callable(getattr(val, "cache_clear", None)):
+                    caches.append(val)
+                elif isinstance(val, (staticmethod, classmethod)) and hasattr(getattr(val, "__func__", None), "cache_clear"):
+                    caches.append(val.__func__)
+    _BASELINE.update({"taken": True, "slots": slots, "caches": caches})
+
+
+def reset_generator_globals():
+    """Put every module-/class-level container of the generator back to what it held right after import and clear its functools caches,
+    so that process-global generator state carries history only where a case enumerates it on purpose (reset=False)."""
+    import copy
+
+    if not _BASELINE["taken"]:
+        try:
+            import importlib
+            import pkgutil
+
+            import pyopenapi_gen
+
+            for m in pkgutil.walk_packages(pyopenapi_gen.__path__, "pyopenapi_gen."):   # every module, also those imported lazily inside functions
+                if ".core_package_template" in m.name or m.name.endswith("__main__"):
+                    continue
+                try:
+                    importlib.import_module(m.name)
+                except Exception:
+                    pass
+        except Exception:
+            return
+        _take_baseline()
+        return
+    for h, attr, obj, base in _BASELINE["slots"]:
+        try:
+            cur = getattr(h, attr, None)
+            if cur is not obj:
+                # rebound to a new object: bind the original container again
+                setattr(h, attr, obj)
+            if obj != base:
+                if isinstance(obj, dict):
+                    obj.clear()
+                    obj.update(copy.deepcopy(base))
+                elif isinstance(obj, list):
+                    obj[:] = copy.deepcopy(base)
+                else:
+                    obj.clear()
+                    obj.update(copy.deepcopy(base))
+        except Exception:
+            pass
+    for c in _BASELINE["caches"]:
+        try:
+            c.cache_clear()
+        except Exception:
+            pass
 
 
 def generate(doc, root, output_package="cli", core_package=None, force=True, naming="operationId",
